@@ -15,7 +15,14 @@ def features(b):
     f = set()
     expired = {}
     signed = {}
-    for s in b["steps"]:
+    steps = b["steps"]
+    for i, s in enumerate(steps):
+        # a refused submission directly followed by an honest one for the same entity (delivered as one batch)
+        if (s["a"] == "Sign" and (s.get("variant") == "bad" or s["who"] != s["label"]) and i + 1 < len(steps)
+                and steps[i + 1]["a"] == "Sign" and steps[i + 1].get("variant", "ok") == "ok"
+                and steps[i + 1]["who"] == steps[i + 1]["label"] and steps[i + 1]["entity"] == s["entity"]):
+            f.add(("refused_then_honest", s["entity"][0]))
+    for s in steps:
         a = s["a"]
         if a == "Sign":
             en = tuple(s["entity"])
